@@ -195,7 +195,7 @@ var c18Seq = registerSpace(&e1Space{
 	Prop: "C18", Name: "scopes",
 	N: func(th bool) int64 {
 		seqs := int64(1 + c18NOps + c18NOps*c18NOps + c18NOps*c18NOps*c18NOps)
-		return seqs * c18NSites * 4 * 2
+		return seqs * c18NSites * 4 * 3
 	},
 	Gen: func(i int64, th bool) *rj.Program {
 		seqs := int64(1 + c18NOps + c18NOps*c18NOps + c18NOps*c18NOps*c18NOps)
@@ -219,11 +219,15 @@ var c18Seq = registerSpace(&e1Space{
 			si /= c18NOps
 		}
 		var body []rj.Stmt
-		if pre == 1 {
+		if pre >= 1 {
 			if site == 0 {
 				return nil // "before any :=" excludes an outer declaration
 			}
-			body = append(body, rj.Let("x", rj.S("OUTER")))
+			if pre == 1 {
+				body = append(body, rj.Let("x", rj.S("OUTER")))
+			} else {
+				body = append(body, rj.Let("x", rj.Nil())) // declared, but currently nil
+			}
 		}
 		body = append(body, b.site(site, inner)...)
 		body = append(body, rj.T("|"))
